@@ -24,4 +24,10 @@ theorem eval_operators : Facts.evalOperators = some ["==", "!=", ">", ">=", "<",
 /-- no unchecked `x.(T)` in the evaluator (C14: a wrong dynamic type is an error, not a panic) -/
 theorem eval_assertions_checked : Facts.evalUncheckedAssertions = some [] := rfl
 
+/-- the filter package is pure: it imports only formatting, JSON, reflection, regular expressions, math and string
+    libraries (no clock, random source, file or network) and declares no package-level variable, so the
+    answer of a built filter depends only on the filter text and the metadata bytes (C14) -/
+theorem query_is_pure : Facts.queryImports = some ["encoding/json", "fmt", "log", "math", "reflect", "regexp", "strconv", "strings"] ∧
+    Facts.queryGlobals = some [] := ⟨rfl, rfl⟩
+
 end Syzgy.Tie.Query
